@@ -223,16 +223,20 @@ def grep_forbidden(pid):
     return hits
 
 
-def prove(pid, extra_targets=()):
-    """lake build of the property's theorem module + axiom audit. Returns dict."""
+def prove(pid, extra_targets=(), fact_modules=()):
+    """lake build of the property's theorem module + axiom audit. Returns dict.
+    Obligations = theorems of Props/<pid>.lean + theorems of the kernel-checked fact modules it rests on."""
     props_file = os.path.join(LEAN, 'Precis', 'Props', f'{pid}.lean')
     thms = theorems_in(props_file)
+    for fm in fact_modules:
+        thms += theorems_in(os.path.join(LEAN, *fm.split('.')) + '.lean')
     audit_file = os.path.join(LEAN, 'Precis', 'Audit', f'{pid}.lean')
-    audit_src = f'-- GENERATED by tools/verif.py: axiom audit of every theorem in Props/{pid}.lean\nimport Precis.Props.{pid}\n' + ''.join(f'#print axioms {t}\n' for t in thms)
+    audit_src = (f'-- GENERATED by tools/verif.py: axiom audit of every theorem in Props/{pid}.lean and its fact modules\nimport Precis.Props.{pid}\n'
+                 + ''.join(f'import {fm}\n' for fm in fact_modules) + ''.join(f'#print axioms {t}\n' for t in thms))
     os.makedirs(os.path.dirname(audit_file), exist_ok=True)
     if not os.path.exists(audit_file) or open(audit_file).read() != audit_src:
         open(audit_file, 'w').write(audit_src)
-    targets = ['driver', f'Precis.Props.{pid}'] + list(extra_targets)
+    targets = ['driver', f'Precis.Props.{pid}'] + list(extra_targets) + list(fact_modules)
     cmd = f'cd {LEAN} && lake build {" ".join(targets)} && lake env lean Precis/Audit/{pid}.lean'
     t0 = time.time()
     ok, out = lake_build(targets)
@@ -432,7 +436,7 @@ def main(argv):
         ctx = Ctx(pid, tier, seed, core_out, prof_out)
         if replay:
             return mod.replay(ctx, replay)
-        proof = prove(pid, getattr(mod, 'EXTRA_TARGETS', ()))
+        proof = prove(pid, getattr(mod, 'EXTRA_TARGETS', ()), getattr(mod, 'FACT_MODULES', ()))
         log(f'proof step: {len(proof["theorems"])} theorems, build_ok={proof["build_ok"]}, failed={proof["failed"]} ({proof["wall_s"]:.0f}s)')
         if not proof.get('driver_ok'):
             print(proof['build_log'])
